@@ -150,7 +150,8 @@ fn candidates(i: &Inner, only_objs: Option<&[u8]>, dormant_pool_threads: usize, 
             // (quiet aftermath of a panic: only a wake-up that certainly came after the lost thread was gone is one the library must act on)
             // (a thread that is blocked in sync() on this object is a runner too: it takes a rescheduled queue over)
             // (not for a future_sync operation: that one is polled by the task that owns its future, nobody else)
-            let sync_waiter = o.kind != Kind::FutSync && i.ops.iter().any(|a| a.obj == o.obj && a.kind == Kind::Sync && a.inv != 0 && a.ret == 0 && a.start == 0 && !a.panicked);
+            // (so is a thread that is dropping the last owner of the object: Desync::drop is a sync() of its own)
+            let sync_waiter = o.kind != Kind::FutSync && (i.ops.iter().any(|a| a.obj == o.obj && a.kind == Kind::Sync && a.inv != 0 && a.ret == 0 && a.start == 0 && !a.panicked) || (i.objs[o.obj].dropping_by.is_some() && !i.objs[o.obj].dead));
             if i.gates[g].open && fs_pollable(id, o) && (pool_capacity || sync_waiter || poller_can_resume(id, o)) {
                 out.push(Cand { op: Some(id), obj: o.obj, prop: "C06", clause: "wake-lost", inv: o.inv, ret: o.ret, detail: format!("{:?} #{} on o{} is suspended on gate g{} which was opened at t={} but was never resumed", o.kind, id, o.obj, g, i.gates[g].opened_at) });
             }
@@ -335,6 +336,11 @@ fn attribute(w: &Arc<World>, only_objs: Option<&[u8]>, ctx: &str, snap: &[rt::Ta
                     w.note("C09", "operation-arriving-during-try_sync-never-ran", Some(obj), h.op, format!("{} {}", h.detail, qdebug));
                 }
             }
+            // the last owner of the object is being dropped (by a caller, or by a job of another object) and that drop is waiting for
+            // the operation the library has lost: it never returns and the value is never destroyed
+            if matches!(h.prop, "C03" | "C06") && w.with(|i| i.objs[obj].dropping_by.is_some() && !i.objs[obj].dead) {
+                w.note("C05", "drop-never-returned-behind-lost-operation", Some(obj), h.op, format!("the last owner of o{} is being dropped, but: {} {}", obj, h.detail, qdebug));
+            }
             // the same stuck operation also breaks the promises made about it under other headings
             if let Some(opid) = h.op {
                 let (kind, fut_dropped, accepted) = w.with(|i| (i.ops[opid].kind, i.ops[opid].fut_dropped, i.ops[opid].accepted));
@@ -402,6 +408,31 @@ pub fn phase_end(w: &Arc<World>, pi: usize, _handles: &[Option<ObjH>]) {
             })
             .collect()
     });
+    // C16 while other objects are still (legitimately) waiting: a pipe whose output stream has been dropped shuts down through a last
+    // poll job on its own object. When nothing of that object is unfinished and a pool thread is free or may be spawned, it has done
+    // so by now, whatever the rest of the program is waiting for (closed gates, the pipes' shared disposal queue being held up
+    // by another object's destructor, ...)
+    let capacity = {
+        let snap = rt::snapshot();
+        let live_pool = snap.iter().filter(|t| t.name == POOL_THREAD_NAME && t.state != rt::TaskState::Finished).count();
+        let dormant = snap.iter().filter(|t| t.name == POOL_THREAD_NAME && matches!(t.state, rt::TaskState::Blocked(rt::BlockKind::Recv, _))).count();
+        let max = w.with(|i| i.cur_max);
+        max >= 1 && (dormant >= 1 || live_pool < max) && !w.with(|i| i.pool_zero)
+    };
+    if capacity {
+        let open_pipes: Vec<(usize, usize, u32, u32)> = w.with(|i| {
+            i.streams
+                .iter()
+                .enumerate()
+                .filter(|(_, s)| s.used && s.is_pipe && s.out_dropped && !s.closed && (s.drops != 1 || s.fn_drops != 1))
+                .filter_map(|(si, s)| s.pipe_obj.map(|o| (si, o, s.drops, s.fn_drops)))
+                .filter(|(_, o, _, _)| !i.objs[*o].expect_panicked && !i.ops.iter().any(|a| a.obj == *o && a.inv != 0 && !a.ended() && !a.cancelled && !a.busy && !a.panicked && !matches!(a.kind, Kind::Pipe | Kind::PipeIn | Kind::Suspend | Kind::Attempt)))
+                .collect()
+        });
+        for (si, o, drops, fn_drops) in open_pipes {
+            w.note("C16", "pipe-not-shut-down", Some(o), None, format!("the output stream of pipe s{} was dropped, nothing else is unfinished on o{} and a pool thread is available, but the input stream was dropped {} times and the processing closure {} times [quiescence at the end of phase {}, gates that nobody opened still closed]", si, o, drops, fn_drops, pi));
+        }
+    }
     for (s, obj, got, done) in stalled {
         w.note("C12", "consumer-not-woken", obj, None, format!("consumer of pipe s{} is blocked after {} outputs although {} items have been processed and nothing can run any more [quiescence at the end of phase {}, gates that nobody opened still closed]", s, got, done, pi));
     }
